@@ -406,7 +406,7 @@ func checkBad(c badCase) *rp.Fail {
 
 func badProps() []rp.Prop {
 	return []rp.Prop{
-		rp.P[badCase]{Name: "malformed", Checks: ev.Pick(60000, 6000000) / ev.Shards(), Gen: genBad, Check: checkBad},
+		rp.P[badCase]{Name: "malformed", Checks: ev.Pick(60000, 6000000) / ev.Shards(), Gen: genBad, Sweep: sweepLeaves, Check: checkBad},
 		rp.P[aliasCase]{Name: "carry-alias", Checks: ev.Pick(20000, 2000000) / ev.Shards(), Gen: genAlias, Sweep: sweepAliases, Check: checkAlias},
 		rp.P[textPair]{Name: "colliding-pairs", Sweep: sweepTextPairs, Check: checkTextPair},
 		rp.P[concCase]{Name: "concurrent-dates", Checks: ev.Pick(80, 8000) / ev.Shards(), Gen: genConc, Sweep: sweepConc, Check: checkConc},
